@@ -111,6 +111,12 @@ mut('m02c_key_precision', ['C02'], KY, 'format!("{:?}", self)', 'format!("{:.1?}
 mut('m02d_async_part_precision', ['C02'], MU, '                __key_parts.push(format!("{:?}", #arg_pats));\n            )*', '                __key_parts.push(format!("{:.3?}", #arg_pats));\n            )*', 'async free fn: float arguments truncated to 3 decimals in the key')
 mut('m05x_fit_sum_counts_entries', ['C05'], G, '                        .map(|e| e.value.estimate_memory())\n                        .sum::<usize>()', '                        .map(|e| crate::MemoryEstimator::estimate_memory(e))\n                        .sum::<usize>()', 'fit test sums whole entries (value + bookkeeping): needless evictions')
 mut('m08x_tlru_weighted_hits_floored', ['C08'], U, 'Some(weight) => frequency * weight,', 'Some(weight) => (frequency * weight).floor(),', 'few hits with weight < 1 score exactly 0, like a never-hit entry')
+mut('m09y_insert_result_skips_present_key', ['C09'], G, '''        if let Ok(v) = value {
+            self.insert(key, Ok(v.clone()));''', '''        if let Ok(v) = value {
+            if self.map.read().contains_key(key) {
+                return;
+            }
+            self.insert(key, Ok(v.clone()));''', 'a refreshed Ok is dropped while the stale entry is still present (invalidate_on)')
 mut('m09c_vec_buffer_elem_size', ['C05'], ME, 'let buffer = self.capacity() * size_of::<T>();', 'let buffer = self.capacity() * size_of::<usize>();', 'buffer counted in words, not in elements')
 mut('m09d_option_double_counts_inline', ['C05'], ME, '.map_or(0, |val| val.estimate_memory() - size_of_val(val))', '.map_or(0, |val| val.estimate_memory())', 'payload inline size counted twice')
 mut('m09e_result_err_arm', ['C05'], ME, 'Err(err) => err.estimate_memory() - size_of_val(err),', 'Err(_) => 0,', 'heap owned by the Err payload ignored')
